@@ -267,6 +267,10 @@ int main(int argc, char **argv) {
         if (r.c_kind == 5 && r.c_code == XRL_ERROR_MEMORY) c_memerr++; else if (r.c_kind == 5) c_othererr++; else if (r.c_kind == 0) c_tolerated++;
         /* judged: the paths on which the library itself REPORTS the failure.  A call that "succeeds" although one of its allocations
          * failed has used an unchecked allocation (its object holds NULL fields): like a crash, outside the stated properties */
+        /* a call that NOTICED the failure (it returns its failure sentinel) must have stored an error; on the pinned tree the unchecked
+         * allocations end in a crash or in a "success" with NULL fields, never here */
+        if (r.c_kind == 6 && r.c_failed > 0 && c0.kind == 0)
+          viol("C03", "failpoint:failure-sentinel-without-error:" + sc.name, "with library allocation " + std::to_string(k) + " failing the C call returns its failure sentinel but leaves the error slot empty");
         if (r.c_leak && r.c_kind == 5)
           viol("C04", "failpoint:leak:" + sc.name, "after the C call reported '" + std::string(r.c_what) + "' with library allocation " + std::to_string(k) + " failing, blocks stay allocated once everything handed out is released (every one of 3 repetitions)");
       }
